@@ -549,6 +549,95 @@ pub fn run(p: &Params, which: Which) -> Outcome {
     Outcome { ctx: total, rule: rule.into(), exhaustive: false, extra: json!({"message_types": nn}) }
 }
 
+// ------------------------------------------------------------------------------------
+// C11 at message level: the field-level monitor (core::c11) drives `dfs::<id>::encode` through the hook; the
+// message encoders need not go through that function (the MSM fragments write whole columns).  Here every real
+// field of a decoded, canonical message is moved by a unit in the last place -- far less than half a step of any
+// field -- and the message is encoded again: the frame may not change.
+// ------------------------------------------------------------------------------------
+
+fn c11_message_case(ctx: &mut Ctx, rng: &mut Rng, f: &[u8]) {
+    let d = match decode(f) {
+        Ok(Some(d)) if is_typed(&d) => d,
+        _ => return,
+    };
+    match build(&d) {
+        Ok(Ok(r)) if r == f => {}
+        _ => {
+            ctx.count("frames_not_canonical_skipped");
+            return;
+        }
+    }
+    let v = match vtree::to_v(&d) {
+        Ok(v) => v,
+        Err(_) => return,
+    };
+    for dir in 0..3u32 {
+        let mut mv = v.clone();
+        let moved = mutate::ulp_all_floats(&mut mv, rng, dir);
+        if moved == 0 {
+            ctx.count("messages_without_real_fields");
+            return;
+        }
+        ctx.eval();
+        ctx.nontrivial(hash_bytes(f) ^ dir as u64);
+        let m: Message = match guard(|| vtree::from_v::<Message>(&mv)) {
+            Ok(Ok(m)) => m,
+            _ => continue,
+        };
+        ctx.count_n("real_fields_moved_by_an_ulp", moved as u64);
+        match build(&m) {
+            Err(_) => ctx.count("encode_panics_left_to_C09"),
+            Ok(Err(e)) => ctx.violation(
+                format!("C11.message_level|{}|refused", d.number().unwrap_or(0)),
+                "C11.message_level",
+                format!("message {} decoded from {} is refused ({}) after every real field was moved by a unit in the last place", d.number().unwrap_or(0), hex_short(f), e),
+                json!({"kind":"ulp_message","hex":hex(f),"dir":dir}),
+            ),
+            Ok(Ok(r)) => {
+                if r != f {
+                    let mut first = 0;
+                    let mlen = f.len().min(r.len());
+                    while first < mlen * 8 && bits::get_bit(f, first) == bits::get_bit(&r, first) {
+                        first += 1;
+                    }
+                    ctx.violation(
+                        format!("C11.message_level|{}", d.number().unwrap_or(0)),
+                        "C11.message_level",
+                        format!("message {}: moving every real field by a unit in the last place ({}) changes the encoding at payload bit {}: the value is no longer quantised to the nearest step; frame {}", d.number().unwrap_or(0), ["random directions", "all up", "all down"][dir as usize], first as i64 - 24, hex_short(f)),
+                        json!({"kind":"ulp_message","hex":hex(f),"dir":dir}),
+                    );
+                    return;
+                }
+            }
+        }
+    }
+    ctx.count("messages_stable_under_ulp_moves");
+}
+
+pub fn run_c11_messages(p: &Params) -> Outcome {
+    let seed = p.seed;
+    let per_type = p.size(400, 20_000) as usize;
+    let nums: Vec<u16> = gen::supported_numbers().to_vec();
+    let n = nums.len();
+    let total = par::run_queue(p.workers, n, move |i, ctx| {
+        let mut rng = Rng::derive(seed, "C11.msg", i as u64);
+        for _ in 0..per_type {
+            if let Some(f) = gen::lib_frame_random(nums[i], &mut rng) {
+                c11_message_case(ctx, &mut rng, &f);
+            }
+        }
+    });
+    Outcome { ctx: total, rule: "message level: every real field of a decoded canonical message moved by 1 ulp (f32) / 1..3 ulps (f64), all up / all down / random: the encoding may not change".into(), exhaustive: false, extra: json!({}) }
+}
+
+pub fn replay_c11_message(v: &Value) -> Outcome {
+    let mut ctx = Ctx::new(0);
+    let mut rng = Rng::new(7);
+    c11_message_case(&mut ctx, &mut rng, &unhex(v["hex"].as_str().unwrap_or("")));
+    Outcome { ctx, rule: "replay of one message-level quantisation case".into(), exhaustive: false, extra: json!({}) }
+}
+
 pub fn replay(p: &Params, v: &Value, which: Which) -> Outcome {
     let mut ctx = Ctx::new(0);
     let _ = p;
